@@ -313,7 +313,7 @@ def run():
                  'unstorable contents, and every single-byte mutation / '
                  'truncation / deletion / duplication of base files')
     n1 = 4 if thorough else 3
-    shards = [('refuse',), ('lengths', (2097151, 2097152) if thorough else ())]
+    shards = [('refuse',), ('lengths', (999000,) if thorough else ())]  # reader limit: 1e6 bytes per message
     for type_ in (0, 1):
         shards += [('one', type_, s, n1, 2) for s in SYMBOLS]
     n2 = 2
